@@ -26,6 +26,7 @@ static GORDER: AtomicBool = AtomicBool::new(true);
 static LAYOUT_STATE: AtomicI64 = AtomicI64::new(-1);
 static PROD_NT: RwLock<Vec<usize>> = RwLock::new(Vec::new());
 static PROGRESS: AtomicU64 = AtomicU64::new(0);
+static SPPF: AtomicBool = AtomicBool::new(false);
 
 pub const NREC: usize = 128;
 
@@ -60,6 +61,11 @@ impl std::fmt::Debug for Tk {
 }
 impl From<Tk> for usize {
     fn from(s: Tk) -> usize {
+        s.0
+    }
+}
+impl From<Pk> for usize {
+    fn from(s: Pk) -> usize {
         s.0
     }
 }
@@ -530,7 +536,14 @@ pub fn run_glr(def: &'static Def, recs: &'static [Rec; NREC], cfg: &RunCfg, inpu
             TreeBuilder<str, Pk, Tk>,
         > = GlrParser::new(def, cfg.partial, cfg.has_layout, lexer);
         match parser.parse(input) {
-            Ok(f) => forest_str(input, &f),
+            Ok(f) => {
+                let mut s = forest_str(input, &f);
+                if SPPF.load(Ordering::SeqCst) {
+                    s.push_str(" || SPPF ");
+                    s.push_str(&f.verif_dump().replace('\n', " ; "));
+                }
+                s
+            }
             Err(e) => err_str(&e),
         }
     }));
@@ -590,6 +603,7 @@ struct Case {
     run: String,
     lexer: String,
     want_match: bool,
+    sppf: bool,
     grammar: String,
     inputs: Vec<String>,
 }
@@ -616,6 +630,7 @@ fn parse_cases(text: &str) -> Vec<Case> {
                     run: "LR".into(),
                     lexer: "default".into(),
                     want_match: false,
+                    sppf: false,
                     grammar: String::new(),
                     inputs: vec![],
                 }
@@ -636,6 +651,7 @@ fn parse_cases(text: &str) -> Vec<Case> {
                         "skipws" => c.skip_ws = b,
                         "fancy" => c.fancy = b,
                         "match" => c.want_match = b,
+                        "sppf" => c.sppf = b,
                         _ => panic!("flag {k}"),
                     }
                 }
@@ -743,6 +759,7 @@ fn main() {
                     }
                 }
                 Ok(recs) => {
+                    SPPF.store(c.sppf, Ordering::SeqCst);
                     LONGEST.store(c.lm, Ordering::SeqCst);
                     GORDER.store(c.go, Ordering::SeqCst);
                     LAYOUT_STATE.store(d.layout_state, Ordering::SeqCst);
